@@ -79,6 +79,7 @@ def observe (c : Cfg) (status : String) (old : St) (σ : St) : String := Id.run 
       failed := failed.push s!"{s}.{r}"
   let tasks := (σ.running.map fun t => (t.sub, t.ref)).toArray.qsort (fun a b => a.1 < b.1 || (a.1 == b.1 && a.2 < b.2))
   let ts := tasks.toList.map fun p => s!"{p.1}.{p.2}"
+  failed := failed.push s!"d={failed.size}"
   return s!"{status}|L:{String.intercalate "," newE}|S:{String.intercalate "," jobs.toList}|F:{String.intercalate "," failed.toList}|T:{String.intercalate "," ts}"
 
 def showStatus : Status → String
